@@ -8,6 +8,9 @@ from vlib.ecgen import P, N, R, M, G, h64
 IMPORTS = ("From Coq Require Import ZArith List String.\nFrom GmVerif Require Import Ec.Num Ec.Mont Ec.Jacobian Ec.Z256Eval.\n"
            "Import ListNotations.\nOpen Scope string_scope.\nOpen Scope Z_scope.\n")
 SHARDS = int(os.environ["VERIF_SHARDS"]) if os.environ.get("VERIF_SHARDS") else None
+# the assembly back-end on ELF: the repo's default ENABLE_ASM_UNDERSCORE_PREFIX=ON (Mach-O symbol
+# names) does not link on Linux, so the variant is registered here with the prefix switched off
+core.VARIANTS.setdefault("amd64elf", (core.SAN_FLAGS, ["-DENABLE_SM2_AMD64=ON", "-DENABLE_ASM_UNDERSCORE_PREFIX=OFF"]))
 
 
 def z(x):
@@ -358,7 +361,10 @@ def compare(ctx, cases, impl, model, variant):
                           {"kind": "model", "op": line, "expr": expr, "model": b}, found_input=False)
             continue
         st, text = judge(a, b)
-        if st == "mismatch" and variant == "amd64" and " | " in b and len(a.split()) == 3:
+        if a == "ABSENT" and variant == "amd64elf":
+            ctx.count("amd64-constant-absent")
+            continue
+        if st == "mismatch" and variant == "amd64elf" and " | " in b and len(a.split()) == 3:
             pending.append(i)
             continue
         record(ctx, cases[i], a, b, st, text, variant)
@@ -387,7 +393,8 @@ def record(ctx, case, a, b, st, text, variant):
         if ctx.cov["evaluations"] % 4000 == 1:
             ctx.sample({"op": line[:300], "result": a[:200]})
     else:
-        ctx.violation(cell, "%s [%s]: op `%s` impl=%s model=%s" % (text, variant, line[:220], a[:200], b[:420]),
+        key = cell if variant == "asan" else cell + "@" + variant   # findings of a non-default back-end never mask the default build
+        ctx.violation(key, "%s [%s]: op `%s` impl=%s model=%s" % (text, variant, line[:220], a[:200], b[:420]),
                       {"kind": "failing-input", "op": line, "expr": expr, "impl": a, "expected": b, "variant": variant}, found_input=True)
 
 
@@ -405,7 +412,7 @@ def run(ctx):
     t0 = time.time()
     model = eval_model(cases)
     ctx.notes.append("model (coqc vm_compute): %.1fs for %d cases" % (time.time() - t0, len(cases)))
-    variants = ["asan"] if ctx.tier == "quick" else ["asan", "amd64"]
+    variants = ["asan"] if ctx.tier == "quick" else ["asan", "amd64elf"]
     for v in variants:
         exe, log = core.build_harness("C13", v)
         if exe is None:
